@@ -10,6 +10,9 @@ CHECKS = {
  "C19": (True, "model_checking", "stateless model checking of the real code: all interleavings (<=3-4 threads) / preemption bound 2-3 (4-5 threads), points before+after every atomic",
          "Every interleaving of up to 3 (quick) / 4 (thorough) concurrent Set/Get/Err/IsSet/Signal/Wait threads on drpcsignal.Signal and Close/Get/Make/Send/Recv/Full on drpcsignal.Chan is executed on the real code under a scheduler that owns every atomic, mutex and channel operation, with a scheduling point before and after each atomic; 4 (5) threads at preemption bound 2 (3). Oracle: exactly one winner, every observer sees the winner's error, channel closed only after value visible, one channel identity, no panic, no blocked waiter after a Set/Close.",
          "Go atomics are sequentially consistent; data-race freedom between points is validated by a separate free-running -race pass; bounds: <=5 threads, 1-3 operations each.", "4/C19"),
+ "C06": (True, "model_checking", "stateless model checking of the real code: client conn + ServeOne over a model pipe, deviation-bounded (0,1; 2 on the small grid in thorough) schedule enumeration per (client program, handler program, config) followed by a probe RPC",
+         "For every (client program, handler program) pair up to 1 (quick) / 2 (thorough) send/recv/half-close steps per side, ending by Close, context cancel (a canceller thread placed at every point by the deviation bound) or half-close+drain, handlers returning nil or an error possibly without draining, soft and hard cancel, unbounded and rendezvous pipe, the real drpcconn/drpcserver pair is run under every schedule with at most 1 (2) deviations from the default schedule, then a probe RPC is issued (after quiescence with the premise checked, or immediately). Oracle: the probe returns its own echo unless the connection reports closed; a probe parked at final quiescence is reported with the wait-for set.",
+         "Deviation bound 1-2 (not all interleavings); programs up to 2 steps per side; transport is the in-memory model; handlers end when their stream ends.", "4/C06"),
 }
 ALL = ["C%02d" % i for i in range(1, 20)]
 NOT_BUILT_REASON = "check not built yet in this round (planned: see DESIGN.md section 4); not claimed until it exists"
